@@ -125,6 +125,13 @@ func (w *World) typeName(t types.Type) string {
 	case *types.Array:
 		return fmt.Sprintf("A%d%s", u.Len(), w.typeName(u.Elem()))
 	case *types.Basic:
+		// byte/uint8 and rune/int32 are the same type and must share one memory component
+		switch u.Kind() {
+		case types.Uint8:
+			return "uint8"
+		case types.Int32:
+			return "int32"
+		}
 		return u.Name()
 	case *types.Map:
 		return "Map_" + w.typeName(u.Key()) + "_" + w.typeName(u.Elem())
